@@ -38,6 +38,9 @@ def straightline(body):
             if init.get("k") in ("if", "match", "loop") and not H.is_try(init):
                 return None
             v = rd(init)
+            si = H.strip(init)
+            if init.get("k") == "ref" and si.get("k") in ("field", "index", "path"):
+                v = rd(si)          # `let scope = &mut self.scopes[i]` names a place: uses of the alias are uses of the place
             if any(c.get("k") in ("call", "mcall") and (c.get("callee") or "").startswith(C) and H.last(c["callee"]) not in ("get_curr_instructions",)
                    for c in H.walk(init)):
                 calls.append(v)
@@ -79,7 +82,8 @@ def check(F, R, defs=None):
     f, r = sl("set_last_instruction")
     if r:
         st, calls, res = r
-        ok = st.get(S + ".prev_ins") == S + ".last_ins.clone()" and re.fullmatch(r"EmittedInstruction::new\(op, pos\)", st.get(S + ".last_ins", "")) is not None
+        ok = (st.get(S + ".prev_ins") == S + ".last_ins.clone()" and re.fullmatch(r"EmittedInstruction::new\(op, pos\)", st.get(S + ".last_ins", "")) is not None) or \
+            st.get(S + ".prev_ins") == "mem::replace(&mut %s.last_ins, EmittedInstruction::new(op, pos))" % S
         R.ob("helper-model", "set_last_instruction: prev_ins ← last_ins, last_ins ← (op, pos)", ok, str(st), F.loc(f))
     f, r = sl("emit")
     if r:
@@ -91,26 +95,34 @@ def check(F, R, defs=None):
     f, r = sl("add_instruction")
     if r:
         st, calls, res = r
-        ok = res == "self.get_curr_instructions().len()" and any("code.extend_from_slice(&ins.code)" in c for c in calls) and \
-            any("lines.extend_from_slice(&ins.lines)" in c for c in calls) and st.get(S + ".instructions") == "self.get_curr_instructions()"
+        ok = res in ("self.get_curr_instructions().len()", S + ".instructions.len()", S + ".instructions.code.len()") and \
+            any("code.extend_from_slice(&ins.code)" in c for c in calls) and any("lines.extend_from_slice(&ins.lines)" in c for c in calls) and \
+            (st.get(S + ".instructions") == "self.get_curr_instructions()" or                       # copy, extend, store back
+             (any(c.startswith(S + ".instructions.code.extend_from_slice(") for c in calls) and     # or extend the scope's vectors in place
+              any(c.startswith(S + ".instructions.lines.extend_from_slice(") for c in calls)))
         R.ob("helper-model", "add_instruction: appends code and lines, returns the previous length", ok, "%s %s → %s" % (st, calls, res), F.loc(f))
     f, r = sl("patch_jump")
     if r:
         st, calls, res = r
-        ok = calls == ["self.change_operand(pos, self.get_curr_instructions().len())"] and not st
+        ok = calls in (["self.change_operand(pos, self.get_curr_instructions().len())"], ["self.change_operand(pos, %s.instructions.len())" % S],
+                       ["self.change_operand(pos, %s.instructions.code.len())" % S]) and not st
         R.ob("helper-model", "patch_jump(pos): operand ← current end of the instruction stream", ok, str(calls), F.loc(f))
     f, r = sl("change_operand")
     if r:
         st, calls, res = r
-        ok = any(re.fullmatch(r"self\.replace_instruction\(op_pos, &definitions::make\(::from\(self\.get_curr_instructions\(\)\.code\[op_pos\]\), &\[operand\], .*\)\.code\)", c) for c in calls)
+        INSRX = r"(?:self\.get_curr_instructions\(\)|%s\.instructions)" % re.escape(S)
+        ok = any(re.fullmatch(r"self\.replace_instruction\(op_pos, &definitions::make\(::from\(" + INSRX + r"\.code\[op_pos\]\), &(?:\[operand\]|\[operand\]), .*\)\.code\)", c) for c in calls)
         R.ob("helper-model", "change_operand: re-encodes the instruction found at op_pos with the new operand, in place", ok, str(calls), F.loc(f))
     f, r = sl("remove_last_pop")
     if r:
         st, calls, res = r
         ins = st.get(S + ".instructions", "")
-        ok = st.get(S + ".last_ins") == S + ".prev_ins.clone()" and \
-            re.search(r"code: self\.get_curr_instructions\(\)\.code\[ops::RangeTo\{end: %s\.last_ins\.clone\(\)\.position\}\]\.to_vec\(\)" % re.escape(S), ins) is not None and \
+        copy_form = re.search(r"code: self\.get_curr_instructions\(\)\.code\[ops::RangeTo\{end: %s\.last_ins\.clone\(\)\.position\}\]\.to_vec\(\)" % re.escape(S), ins) is not None and \
             re.search(r"lines: self\.get_curr_instructions\(\)\.lines\[ops::RangeTo\{end: %s\.last_ins\.clone\(\)\.position\}\]\.to_vec\(\)" % re.escape(S), ins) is not None
+        cut = lambda fld: [re.fullmatch(re.escape(S) + r"\.instructions\." + fld + r"\.truncate\((.*)\)", c) for c in calls]
+        cc, cl = [m.group(1) for m in cut("code") if m], [m.group(1) for m in cut("lines") if m]
+        inplace_form = len(cc) == 1 and cc == cl and cc[0] in (S + ".last_ins.position", S + ".last_ins.clone().position")
+        ok = st.get(S + ".last_ins") == S + ".prev_ins.clone()" and (copy_form or inplace_form)
         R.ob("helper-model", "remove_last_pop: truncates code and lines at last_ins.position, last_ins ← prev_ins", ok, str(st)[:300], F.loc(f))
     f, r = sl("replace_last_pop_with_return")
     if r:
